@@ -148,6 +148,9 @@ SITES = [
     ("handlerNestedKeepsState", "src/error_context.c", r"if \(current_error_context == mudlib_error_handler_context\)" + W + r"\{" + W + r"in_mudlib_error_handler = 0;" + W + r"set_error_state \(handler_limit_state\);" + W + r"\}", 2, None),
     ("handlerSavesState", "src/error_context.c", r"handler_limit_state = limit_state;" + W + r"in_mudlib_error_handler = 1;" + W + r"mudlib_error_handler_context = current_error_context;", 2, None),
     ("handlerTraceBeforeRestore", "src/error_context.c", r"mret = apply_master_ob \(APPLY_ERROR_HANDLER, 1\);" + W + r"\}" + W + r"if \(\(svalue_t \*\) - 1 == mret \|\| NULL == mret\)" + W + r"\{" + W + r"debug_message_with_location \(err\);" + W + r"dump_trace \(g_trace_flag\);", 1, None),
+    ("regexpStepCharge", "lib/efuns/regexp.c", r"#define REGEXP_STEPS_PER_TICK (\d+)", 1, "regexpStepsPerTick"),
+    ("regexpStepTest", "lib/efuns/regexp.c", r"while \(scan != \(char \*\) NULL\)" + W + r"\{" + W + r"if \(--regsteps < 0\)" + W + r"return \(0\);", 1, None),
+    ("regexpChargeBack", "lib/efuns/regexp.c", r"regsteps = budget;" + W + r"ret = regexec_steps \(prog, string\);" + W + r"used = \(budget - \(regsteps > 0 \? regsteps : 0\)\) / REGEXP_STEPS_PER_TICK;" + W + r"if \(eval_cost > 1\)" + W + r"eval_cost = \(used >= eval_cost - 1\) \? 1 : eval_cost - used;", 1, None),
     ("setLimitCast", "lib/efuns/unsorted.c", r"default:" + W + r"CONFIG_INT \(__MAX_EVAL_COST__\) = \(int\)sp->u.number;" + W + r"if \(CONFIG_INT \(__MAX_EVAL_COST__\) < 1\)", 1, None),
     ("aggregateAlloc", "src/interpret.c", r"unsigned short offset;.{0,60000}?case F_AGGREGATE:" + W + r"\{" + W + r"array_t \*v;" + W + r"LOAD_SHORT \(offset, pc\);" + W + r"offset \+= \(unsigned short\)num_varargs;" + W + r"num_varargs = 0;" + W + r"v = allocate_empty_array \(\(int\) offset\);", 1, None),
     ("callbackTickBlock", "src/interpret.c", r"svalue_t\* call_efun_callback \(function_to_call_t \* ftc, int n\) \{" + W + r"svalue_t \*v;" + W + r"(?:/\*.*?\*/)?" + W + r"if \(!--eval_cost\)" + W + r"\{" + W + r"set_error_state \(ES_MAX_EVAL_COST\);" + W + r"eval_cost = CONFIG_INT \(__MAX_EVAL_COST__\);" + W + r"error", 1, None),
@@ -346,6 +349,52 @@ def gen_loop(repo):
                   "localCallOps": calls, "helpers": helpers}
 
 
+
+# ---------------------------------------------------------------------------
+# translator, part 4 (gen_refills): every statement of the driver that WRITES eval_cost or the configured budget
+# (CONFIG_INT (__MAX_EVAL_COST__)).  Regenerated into NV/Gen/C04.lean as `evalCostWrites : List (file, function, statement)`;
+# NV/C04/Refill.lean holds the table of rules (`refillRules`) that justifies each of them, `bridge_refills` compares the two:
+# a new place that refills or lowers the budget breaks the obligation until it is given a rule.
+
+REFILL_FILES_SKIP = ("lib/efuns/func_spec.c",)
+
+
+def gen_refills(repo):
+    import re
+    rx = re.compile(r"\beval_cost\s*(?:=(?!=)|\+=|-=|\+\+|--)|(?:--|\+\+)\s*eval_cost\b|CONFIG_INT\s*\(\s*__MAX_EVAL_COST__\s*\)\s*=(?!=)")
+    rows = []
+    for top in ("src", "lib"):
+        for d, _, files in sorted(os.walk(os.path.join(repo, top))):
+            for fn in sorted(files):
+                if not fn.endswith((".c", ".cpp")):
+                    continue
+                rel = os.path.relpath(os.path.join(d, fn), repo)
+                if rel in REFILL_FILES_SKIP or "/tests/" in rel:
+                    continue
+                raw = open(os.path.join(repo, rel), errors="replace").read()
+                if "eval_cost" not in raw and "__MAX_EVAL_COST__" not in raw:
+                    continue
+                text = _drop_hooks(_strip_c(raw))
+                heads = [(m.start(), m.group(1)) for m in re.finditer(
+                    r"^(?:[A-Za-z_][\w \t\*\"]*?[ \t\*])?(\w+)[ \t]*\([^;{}]*\)[ \t]*\{?[ \t]*$", text, flags=re.M)
+                    if m.group(1) not in ("if", "while", "for", "switch", "return", "sizeof", "defined")]
+                for m in rx.finditer(text):
+                    depth = text.count("{", 0, m.start()) - text.count("}", 0, m.start())
+                    name = "<file scope>"
+                    if depth > 0:
+                        before = [h for h in heads if h[0] < m.start()]
+                        name = before[-1][1] if before else "<unknown>"
+                    a = text.rfind("\n", 0, m.start()) + 1
+                    b = text.find("\n", m.end())
+                    rows.append((rel, name, " ".join(text[a:b if b >= 0 else len(text)].split())))
+    rows = sorted(rows)
+    q = lambda t: '"' + t.replace("\\", "\\\\").replace('"', '\\"') + '"'
+    lean = "\n".join(["", "/-! every statement that writes eval_cost or the configured budget (props/c04.py: gen_refills) -/",
+                      "def evalCostWrites : List (String × String × String) := ["] +
+                     [",\n".join("  (%s, %s, %s)" % (q(a), q(b), q(c)) for a, b, c in rows)] + ["]", ""])
+    return lean, rows
+
+
 BASE_CONF = "MaxCallDepth 200\nStackSize 2000\n"
 
 
@@ -450,7 +499,7 @@ def with_arguments(src, argkind):
     """every node function takes one argument and keeps it in a local; every call passes a value of the given kind"""
     import re
     head, sep, rest = src.partition("string safe_fn")
-    rest = re.sub(r"\bmixed (f\d+(?:_b)?) \(\)( \{ )?", lambda m: "mixed %s (mixed a)%s" % (m.group(1), " { mixed lv = a; " if m.group(2) else ""), rest)
+    rest = re.sub(r"\bmixed (f\d+(?:_b)?) \(\)( \{ )?", lambda m: "mixed %s (mixed arg0)%s" % (m.group(1), " { mixed lv0 = arg0; " if m.group(2) else ""), rest)
     rest = re.sub(r"\b(f\d+(?:_b)?) \(\)", lambda m: "%s (%s)" % (m.group(1), ARG_KINDS[argkind]), rest)
     return head + sep + rest
 
@@ -573,7 +622,8 @@ class C04(Prop):
                 "NV.C04.bridge_stackSlack", "NV.C04.bridge_depthTest", "NV.C04.bridge_clamp", "NV.C04.bridge_safeTick",
                 "NV.C04.bridge_esBits", "NV.C04.bridge_widths",
                 "NV.C04.sizes_bounded_round4", "NV.C04.compose_count_exact", "NV.C04.save_depth_bounded", "NV.C04.restore_depth_bounded",
-                "NV.C04.loop_iterations_charged", "NV.C04.bridge_backwardOps", "NV.C04.bridge_saveWalk", "NV.C04.bridge_casts"]
+                "NV.C04.loop_iterations_charged", "NV.C04.bridge_backwardOps", "NV.C04.bridge_saveWalk", "NV.C04.bridge_casts",
+                "NV.C04.bridge_refills", "NV.C04.refill_rules_sound", "NV.C04.regex_charge_bounded"]
     witness_theorems = ["NV.C04.eval_unbounded_at_zero_budget", "NV.C04.eval_bound_attained_through_safe_apply",
                         "NV.C04.sprintf_exceeds_small_limit", "NV.C04.array_size_wraps",
                         "NV.C04.buffer_size_wraps", "NV.C04.repeat_string_old_wraps",
@@ -655,7 +705,8 @@ class C04(Prop):
         text, consts, report = gen_sites(E.REPO)
         self.site_report = report
         loop_text, self.loop_info = gen_loop(E.REPO)
-        return text + loop_text
+        refill_text, self.refill_rows = gen_refills(E.REPO)
+        return text + loop_text + refill_text
 
     def extra_checks(self, ctx, tier, rng):
         inv = efun_inventory(E.REPO)
@@ -748,6 +799,11 @@ class C04(Prop):
         ix = self.idx_or_default()
         return E.Case(cid, ["cfgint %d %d" % (ix["cfgMaxMapping"], limit), "load sizes /c04/sizes", "ev sizes mapseq " + ",".join(ops)],
                       {"origin": origin, "kind": "mapseq"})
+
+    def rx_case(self, cid, cost, n, origin="boundary"):
+        ix = self.idx_or_default()
+        return E.Case(cid, ["cfgint %d %d" % (ix["cfgEvalCost"], cost), "load sizes /c04/sizes", "ev sizes rx %d" % n],
+                      {"origin": origin, "kind": "rx"})
 
     def gen_mapseq(self, rng, cid):
         """inserts and in-place `m += m2` on one mapping, each inside catch.  `present` = keys certainly in the mapping;
@@ -947,6 +1003,9 @@ class C04(Prop):
         B.append(self.sizes_case("b-sz-regexp", {"string": 1000, "array": 100},
                                  ["regexp 100 50 1", "regexp 100 51 1", "regexp 100 100 0", "regexp 100 30 2", "regexp 100 49 3", "regexp 100 50 3",
                                   "regexp 0 0 1", "regexp 101 0 0", "reg_assoc 49", "reg_assoc 50", "reg_assoc 0", "reg_assoc 1"]))
+        # regexp backtracking is charged against the budget: far below / far above what 100 node visits per tick allow
+        for cost, n in ((20000, 3), (20000, 12), (20000, 45), (20000, 60), (5000, 40), (5000, 200), (1000000, 10)):
+            B.append(self.rx_case("b-rx-%d-%d" % (cost, n), cost, n))
         B.append(self.mapseq_case("b-map-compose", 20, ["a100:15:15", "c105:5:5", "i300n", "cs:6", "a400:20:20", "c0:0:0", "i1n", "a500:19:19", "i2n"]))
         return B
 
@@ -1157,7 +1216,10 @@ class C04(Prop):
     def generate(self, rng, n, tier):
         out = []
         for i in range(n):
-            if i % 8 == 7:
+            if i % 40 == 39:
+                cost = rng.choice([5000, 20000, 50000])
+                out.append(self.rx_case("g%d" % i, cost, rng.choice([1, 5, 10, 12, 45, 60, 100, 500]), "generated"))
+            elif i % 8 == 7:
                 out.append(self.gen_mapseq(rng, "g%d" % i))
             elif i % 2 == 0:
                 out.append(self.gen_machine(rng, "g%d" % i))
